@@ -360,6 +360,15 @@ theorem store_layer_can_diverge_witness :
     (openNodeE demoA (fun _ => ⟨500, 9⟩) (fun _ => ⟨500, 9⟩) (crash n)).live = [(1, 5), (999, 9)] := by
   decide
 
+/-- what `covered` does NOT include, stated rather than hidden: RANDOMBLOB with a 16-digit hex
+literal ≥ 2^63 (the rewriter leaves it alone — C14's `blobLen` —, SQLite reads it as negative and
+returns one random byte); a 15-digit one is covered. -/
+theorem hex_literal_not_covered :
+    covered (.call "randomblob" (.cons (.lit "number" "0xFFFFFFFFFFFFFFFF") .nil) .nil) = false ∧
+    covered (.call "randomblob" (.cons (.lit "number" "0x8000000000000000") .nil) .nil) = false ∧
+    covered (.call "randomblob" (.cons (.lit "number" "0x10") .nil) .nil) = true := by
+  decide
+
 /-! ### regenerated facts -/
 
 /-- the handlers' call lists ARE the model's `endpointCalls` (from which `rewrites` is computed) -/
